@@ -918,6 +918,31 @@ func (ex *Exec) havocModifies(spec *FuncSpec, ev *Eval, pre, post *State, callee
 		ex.vc.assume("(>= " + nclk + " " + clk + ")")
 		ex.set(post, "CLK", "Int", nclk)
 	}
+	// ghost registries the callee's contract speaks about (timers, goroutine / singleflight counters) may change
+	text := spec.specText()
+	for _, g := range []struct {
+		words []string
+		comps [][2]string
+	}{
+		{[]string{"timercount", "timerdue", "timerfn", "timeron"}, [][2]string{{"TMRDUE", "(Array Int Int)"}, {"TMRFN", "(Array Int Int)"}, {"TMRON", "(Array Int Bool)"}, {"TMRN", "Int"}}},
+		{[]string{"gocount"}, [][2]string{{"GOCNT", "Int"}}},
+		{[]string{"docount", "dokey", "doran"}, [][2]string{{"DOCNT", "Int"}, {"DOKEY", strSort}, {"DORAN", "Bool"}}},
+	} {
+		hit := false
+		for _, w := range g.words {
+			if mentions(text, w) {
+				hit = true
+			}
+		}
+		if hit {
+			for _, c := range g.comps {
+				if c[1] == strSort {
+					ex.vc.needStr()
+				}
+				ex.set(post, c[0], c[1], ex.vc.fresh("hv_"+c[0], c[1]))
+			}
+		}
+	}
 	// allocation may always grow in a callee (fresh results)
 	_ = allocHavoc
 	al := ex.allocComp(pre)
